@@ -541,6 +541,7 @@ type decision struct {
 	View   *respView
 	Trace  *trace
 	dm     *model.DecisionMaker
+	sent   *model.DecisionMaker // the request decoded once more from the body, never handed to the code under test
 }
 
 func parseResp(b []byte) *respView {
@@ -601,6 +602,7 @@ func decideService(body []byte, withTrace bool) (d decision) {
 		return decision{Err: "decode: " + err.Error()}
 	}
 	d.dm = dm
+	d.sent = dm
 	if withTrace {
 		tr := &trace{method: dm.PreferenceFunction}
 		d.Trace = tr
@@ -672,7 +674,9 @@ func decide(body []byte, withTrace bool) decision {
 	if withTrace {
 		tr = &trace{}
 	}
-	return decideDM(dm, tr)
+	d := decideDM(dm, tr)
+	d.sent, _ = decodeRequest(body)
+	return d
 }
 
 // ---------------------------------------------------------------------------------------------
